@@ -58,7 +58,7 @@ Definition prop_ok (c : c17case) : bool :=
   | C17 en cfg ops nreq reqlen cs hjin late ran before partial extra inb lateb latepanic closed =>
       if negb ran then true      (* the property speaks about connections whose hijack handler runs *)
       else
-        let h := after_handler (fold_left apply_hop (nth_req (Z.to_N nreq) ops []) (hstate0 StatusOK)) in
+        let h := after_handler (fold_left apply_hop (nth_req (Z.to_N nreq) ops []) (hstate0 StatusOK false)) in
         let noresp := h_noresp h && h_hijack h in
         let rest := skipn (Z.to_nat reqlen) (concat cs) in
         (* the response (unless suppressed) is completely written before the hijack handler runs *)
